@@ -1,1 +1,579 @@
-// shared helpers for the sstmc harness binaries
+//! Shared helpers for the sstmc harness binaries (seq_sst: C10, seq_cursor: C11).
+//!
+//! * `VecCursor`: a Vec-backed `sst::Cursor` with exactly the movement semantics of
+//!   `sst::reference::ReferenceCursor` (positions -1..=n, saturating).  It is the *child* cursor
+//!   handed to the combinators under test; it is not the oracle.
+//! * `ref_apply` / `ref_current`: the oracle, an index into a sorted slice.
+//! * `run_programs`: every cursor program of length 1..=L over a move alphabet, executed from a
+//!   fresh subject cursor, compared after the last call; panics and errors are outcomes.
+//! * `Findings`: process-wide map signature -> (count, smallest witness).
+
+use std::collections::{BTreeMap, HashSet};
+use std::sync::{Arc, Mutex};
+
+use sst::Cursor;
+
+pub use seqmc::refcursor::{Entry, Move, bump, entry_order, fmt_entry, observe, unesc};
+use vcore::{Value, Violation, json};
+
+//////////////////////////////////////////// byte specs ////////////////////////////////////////////
+
+/// Bytes that are either spelled out or generated (so that replay files stay small).
+#[derive(Clone, Debug, PartialEq, Eq, Hash, PartialOrd, Ord)]
+pub enum Bytes {
+    Lit(Vec<u8>),
+    /// `len` bytes, byte i = seed + 31*i (mod 251), never all equal.
+    Generated { seed: u8, len: usize },
+    /// `len` copies of one byte.
+    Fill { byte: u8, len: usize },
+}
+
+impl Bytes {
+    pub fn lit(s: &[u8]) -> Bytes {
+        Bytes::Lit(s.to_vec())
+    }
+
+    pub fn materialize(&self) -> Vec<u8> {
+        match self {
+            Bytes::Lit(v) => v.clone(),
+            Bytes::Generated { seed, len } => (0..*len)
+                .map(|i| ((*seed as usize + 31 * i) % 251) as u8)
+                .collect(),
+            Bytes::Fill { byte, len } => vec![*byte; *len],
+        }
+    }
+
+    pub fn to_json(&self) -> Value {
+        match self {
+            Bytes::Lit(v) => json!({"lit": vcore::esc(v)}),
+            Bytes::Generated { seed, len } => json!({"gen": [seed, len]}),
+            Bytes::Fill { byte, len } => json!({"fill": [byte, len]}),
+        }
+    }
+
+    pub fn from_json(v: &Value) -> Bytes {
+        if let Some(s) = v.get("lit") {
+            Bytes::Lit(unesc(s.as_str().unwrap()))
+        } else if let Some(g) = v.get("gen") {
+            Bytes::Generated {
+                seed: g[0].as_u64().unwrap() as u8,
+                len: g[1].as_u64().unwrap() as usize,
+            }
+        } else if let Some(g) = v.get("fill") {
+            Bytes::Fill {
+                byte: g[0].as_u64().unwrap() as u8,
+                len: g[1].as_u64().unwrap() as usize,
+            }
+        } else {
+            panic!("bad bytes spec {v}");
+        }
+    }
+}
+
+/// One builder call: put (value Some) or del (value None).
+#[derive(Clone, Debug, PartialEq, Eq, Hash)]
+pub struct Spec {
+    pub key: Bytes,
+    pub ts: u64,
+    pub value: Option<Bytes>,
+}
+
+impl Spec {
+    pub fn entry(&self) -> Entry {
+        Entry {
+            key: self.key.materialize(),
+            ts: self.ts,
+            value: self.value.as_ref().map(|v| v.materialize()),
+        }
+    }
+
+    pub fn from_entry(e: &Entry) -> Spec {
+        Spec {
+            key: Bytes::Lit(e.key.clone()),
+            ts: e.ts,
+            value: e.value.as_ref().map(|v| Bytes::Lit(v.clone())),
+        }
+    }
+
+    pub fn to_json(&self) -> Value {
+        json!({
+            "key": self.key.to_json(),
+            "ts": self.ts,
+            "value": self.value.as_ref().map(|v| v.to_json()),
+        })
+    }
+
+    pub fn from_json(v: &Value) -> Spec {
+        Spec {
+            key: Bytes::from_json(&v["key"]),
+            ts: v["ts"].as_u64().unwrap(),
+            value: if v["value"].is_null() {
+                None
+            } else {
+                Some(Bytes::from_json(&v["value"]))
+            },
+        }
+    }
+}
+
+pub fn specs_to_json(s: &[Spec]) -> Value {
+    Value::Array(s.iter().map(|x| x.to_json()).collect())
+}
+
+pub fn specs_from_json(v: &Value) -> Vec<Spec> {
+    v.as_array().unwrap().iter().map(Spec::from_json).collect()
+}
+
+pub fn entries_to_json(s: &[Entry]) -> Value {
+    Value::Array(s.iter().map(|x| Spec::from_entry(x).to_json()).collect())
+}
+
+pub fn entries_from_json(v: &Value) -> Vec<Entry> {
+    specs_from_json(v).iter().map(|s| s.entry()).collect()
+}
+
+pub fn moves_to_json(p: &[Move]) -> Value {
+    Value::Array(p.iter().map(|m| Value::String(m.name())).collect())
+}
+
+pub fn moves_from_json(v: &Value) -> Vec<Move> {
+    v.as_array()
+        .unwrap()
+        .iter()
+        .map(|m| Move::parse(m.as_str().unwrap()))
+        .collect()
+}
+
+//////////////////////////////////////////// VecCursor /////////////////////////////////////////////
+
+/// Vec-backed child cursor with the ReferenceCursor semantics of sst/src/reference.rs.
+#[derive(Clone, Debug)]
+pub struct VecCursor {
+    entries: Arc<Vec<Entry>>,
+    index: isize,
+}
+
+impl VecCursor {
+    /// `entries` must be sorted in sst order (key ascending, timestamp descending).
+    pub fn new(entries: Arc<Vec<Entry>>) -> Self {
+        debug_assert!(
+            entries
+                .windows(2)
+                .all(|w| entry_order(&w[0], &w[1]) == std::cmp::Ordering::Less)
+        );
+        VecCursor { entries, index: -1 }
+    }
+}
+
+impl Cursor for VecCursor {
+    fn seek_to_first(&mut self) -> Result<(), sst::SError> {
+        self.index = -1;
+        Ok(())
+    }
+
+    fn seek_to_last(&mut self) -> Result<(), sst::SError> {
+        self.index = self.entries.len() as isize;
+        Ok(())
+    }
+
+    fn seek(&mut self, key: &[u8]) -> Result<(), sst::SError> {
+        // first entry >= (key, u64::MAX): timestamps sort descending, so that is the first entry
+        // whose key is >= key.
+        self.index = self.entries.partition_point(|e| e.key.as_slice() < key) as isize;
+        Ok(())
+    }
+
+    fn prev(&mut self) -> Result<(), sst::SError> {
+        self.index -= 1;
+        if self.index < 0 {
+            self.index = -1;
+        }
+        Ok(())
+    }
+
+    fn next(&mut self) -> Result<(), sst::SError> {
+        self.index += 1;
+        if self.index as usize >= self.entries.len() {
+            self.index = self.entries.len() as isize;
+        }
+        Ok(())
+    }
+
+    fn key(&self) -> Option<sst::KeyRef<'_>> {
+        if self.index < 0 || self.index as usize >= self.entries.len() {
+            None
+        } else {
+            let e = &self.entries[self.index as usize];
+            Some(sst::KeyRef {
+                key: &e.key,
+                timestamp: e.ts,
+            })
+        }
+    }
+
+    fn value(&self) -> Option<&[u8]> {
+        if self.index < 0 || self.index as usize >= self.entries.len() {
+            None
+        } else {
+            self.entries[self.index as usize].value.as_deref()
+        }
+    }
+}
+
+////////////////////////////////////////////// oracle //////////////////////////////////////////////
+
+/// The reference cursor is an index -1..=n into a sorted slice.
+pub fn ref_apply(entries: &[Entry], idx: isize, m: &Move) -> isize {
+    let n = entries.len() as isize;
+    match m {
+        Move::First => -1,
+        Move::Last => n,
+        Move::Seek(k) => entries
+            .iter()
+            .position(|e| e.key.as_slice() >= k.as_slice())
+            .map(|p| p as isize)
+            .unwrap_or(n),
+        Move::Next => (idx + 1).min(n),
+        Move::Prev => (idx - 1).max(-1),
+    }
+}
+
+pub fn ref_current(entries: &[Entry], idx: isize) -> Option<&Entry> {
+    if idx < 0 || idx >= entries.len() as isize {
+        None
+    } else {
+        Some(&entries[idx as usize])
+    }
+}
+
+pub fn ref_run(entries: &[Entry], program: &[Move]) -> Option<Entry> {
+    let mut idx = -1;
+    for m in program {
+        idx = ref_apply(entries, idx, m);
+    }
+    ref_current(entries, idx).cloned()
+}
+
+////////////////////////////////////////// program runner //////////////////////////////////////////
+
+#[derive(Clone, Debug, PartialEq, Eq)]
+pub enum Fail {
+    /// a call returned Err: (error code, name of the call, its index in the program)
+    Error(String, String, usize),
+    /// the subject panicked
+    Panic(String),
+    /// the subject could not be constructed
+    Construct(String),
+}
+
+pub type Observed = Result<Option<Entry>, Fail>;
+
+pub fn err_code(e: &sst::SError) -> String {
+    sst::error_code(e).unwrap_or("unknown-error").to_string()
+}
+
+/// Digits carry data; keep panic messages structural.
+pub fn normalise_panic(s: &str) -> String {
+    let mut out = String::new();
+    let mut last_hash = false;
+    for c in s.chars().take(160) {
+        if c.is_ascii_digit() {
+            if !last_hash {
+                out.push('#');
+            }
+            last_hash = true;
+        } else {
+            last_hash = false;
+            out.push(if c == '\n' { ' ' } else { c });
+        }
+    }
+    out
+}
+
+/// Run one program on a fresh subject.  Returns the observation after the last call and the number
+/// of cursor calls made.
+pub fn run_one<'m, C: Cursor>(
+    mk: &mut dyn FnMut() -> Result<C, String>,
+    program: impl IntoIterator<Item = &'m Move>,
+) -> (Observed, u64) {
+    let mut calls = 0u64;
+    let r = vcore::catch(|| -> Observed {
+        let mut c = mk().map_err(Fail::Construct)?;
+        for (i, m) in program.into_iter().enumerate() {
+            calls += 1;
+            m.apply(&mut c)
+                .map_err(|e| Fail::Error(err_code(&e), m.name(), i))?;
+        }
+        Ok(observe(&c))
+    });
+    match r {
+        Ok(o) => (o, calls),
+        Err(p) => (Err(Fail::Panic(normalise_panic(&p))), calls),
+    }
+}
+
+/// Structural failure kind, or None when the observation matches.
+/// `spec` is the full reference table (to tell a foreign entry from a misplaced one).
+pub fn classify(expected: &Option<Entry>, got: &Observed, spec: &[Entry]) -> Option<String> {
+    match got {
+        Err(Fail::Error(code, _, _)) => Some(format!("error-returned({code})")),
+        Err(Fail::Panic(m)) => Some(format!("panic({m})")),
+        Err(Fail::Construct(m)) => Some(format!("construct-failed({})", normalise_panic(m))),
+        Ok(g) => match (expected, g) {
+            (None, None) => None,
+            (Some(e), Some(g)) if e == g => None,
+            (Some(e), Some(g)) if e.key == g.key && e.ts == g.ts => {
+                let _ = e;
+                Some("wrong-value".to_string())
+            }
+            (Some(_), None) => Some("missing-key".to_string()),
+            (exp, Some(g)) => {
+                let in_spec = spec.iter().any(|s| s.key == g.key && s.ts == g.ts);
+                if !in_spec {
+                    Some("extra-key".to_string())
+                } else {
+                    // a valid entry, but not the one the reference is positioned on
+                    let _ = exp;
+                    Some("wrong-order".to_string())
+                }
+            }
+        },
+    }
+}
+
+/// Movement shape of a program: seek arguments dropped, runs of one movement collapsed.
+pub fn shape(program: &[Move]) -> String {
+    let mut parts: Vec<String> = vec![];
+    let mut last: Option<(&'static str, usize)> = None;
+    let flush = |parts: &mut Vec<String>, last: &mut Option<(&'static str, usize)>| {
+        if let Some((n, c)) = last.take() {
+            parts.push(if c > 1 { format!("{n}+") } else { n.to_string() });
+        }
+    };
+    for m in program {
+        let n = match m {
+            Move::First => "seek_to_first",
+            Move::Last => "seek_to_last",
+            Move::Seek(_) => "seek",
+            Move::Next => "next",
+            Move::Prev => "prev",
+        };
+        match &mut last {
+            Some((ln, c)) if *ln == n => *c += 1,
+            _ => {
+                flush(&mut parts, &mut last);
+                last = Some((n, 1));
+            }
+        }
+    }
+    flush(&mut parts, &mut last);
+    parts.join(",")
+}
+
+#[derive(Clone, Debug)]
+pub struct ProgramFailure {
+    pub kind: String,
+    pub program: Vec<Move>,
+    pub expected: Option<Entry>,
+    pub got: Observed,
+}
+
+#[derive(Default, Clone, Debug)]
+pub struct ProgStats {
+    pub programs: u64,
+    pub calls: u64,
+    pub failing_programs: u64,
+    /// programs whose fast execution mismatched but whose full re-execution matched
+    pub flaky_programs: u64,
+}
+
+fn outcome_hash(o: &Observed) -> u64 {
+    match o {
+        Ok(None) => 1,
+        Ok(Some(e)) => vcore::stable_hash(&(
+            &e.key[..e.key.len().min(8)],
+            e.key.len(),
+            e.ts,
+            e.value.as_ref().map(|v| (v.len(), v.first().copied())),
+        )),
+        Err(f) => vcore::stable_hash(&format!("{f:?}")),
+    }
+}
+
+/// Every program of length 1..=max_len over `moves`, shortest first; each from a fresh subject.
+/// Returns the first (= shortest) failure of every failure kind.
+pub fn run_programs<C: Cursor>(
+    mk: &mut dyn FnMut() -> Result<C, String>,
+    spec: &[Entry],
+    moves: &[Move],
+    max_len: usize,
+    outcomes: &mut HashSet<u64>,
+    stats: &mut ProgStats,
+) -> Vec<ProgramFailure> {
+    let mut failures: Vec<ProgramFailure> = vec![];
+    let mut idxs: Vec<usize> = vec![];
+    // seek targets are fixed per move: resolve them once
+    let seek_pos: Vec<isize> = moves.iter().map(|m| ref_apply(spec, -1, m)).collect();
+    let n = spec.len() as isize;
+    for len in 1..=max_len {
+        idxs.clear();
+        idxs.resize(len, 0);
+        loop {
+            stats.programs += 1;
+            let mut ridx: isize = -1;
+            for &i in idxs.iter() {
+                ridx = match &moves[i] {
+                    Move::Next => (ridx + 1).min(n),
+                    Move::Prev => (ridx - 1).max(-1),
+                    _ => seek_pos[i],
+                };
+            }
+            let expected = ref_current(spec, ridx);
+            // fast path: run, compare the borrowed key/value in place, hash the observation
+            let mut calls = 0u64;
+            let mut fast_hash = 0u64;
+            let fast = vcore::catch(|| -> Option<bool> {
+                let mut c = mk().ok()?;
+                for &i in idxs.iter() {
+                    calls += 1;
+                    moves[i].apply(&mut c).ok()?;
+                }
+                let k = c.key();
+                let v = c.value();
+                fast_hash = match &k {
+                    None => 1,
+                    Some(k) => vcore::stable_hash(&(
+                        &k.key[..k.key.len().min(8)],
+                        k.key.len(),
+                        k.timestamp,
+                        v.map(|v| (v.len(), v.first().copied())),
+                    )),
+                };
+                Some(match (k, expected) {
+                    (None, None) => true,
+                    (Some(k), Some(e)) => {
+                        k.key == e.key.as_slice() && k.timestamp == e.ts && v == e.value.as_deref()
+                    }
+                    _ => false,
+                })
+            });
+            stats.calls += calls;
+            if let Ok(Some(true)) = fast {
+                outcomes.insert(fast_hash);
+            } else {
+                // slow path: anything unusual is re-run with full bookkeeping
+                let (got, calls) = run_one(mk, idxs.iter().map(|&i| &moves[i]));
+                stats.calls += calls;
+                let expected = expected.cloned();
+                outcomes.insert(outcome_hash(&got));
+                if let Some(kind) = classify(&expected, &got, spec) {
+                    stats.failing_programs += 1;
+                    if !failures.iter().any(|f| f.kind == kind) {
+                        failures.push(ProgramFailure {
+                            kind,
+                            program: idxs.iter().map(|&i| moves[i].clone()).collect(),
+                            expected,
+                            got,
+                        });
+                    }
+                } else {
+                    // the two executions of one program disagree
+                    stats.flaky_programs += 1;
+                }
+            }
+            if !bump(&mut idxs, moves.len()) {
+                break;
+            }
+        }
+    }
+    failures
+}
+
+pub fn fmt_observed(o: &Observed) -> String {
+    match o {
+        Ok(e) => fmt_entry(e),
+        Err(Fail::Error(code, call, i)) => format!("Err({code}) from call #{i} {call}"),
+        Err(Fail::Panic(m)) => format!("PANIC: {m}"),
+        Err(Fail::Construct(m)) => format!("could not construct the cursor: {m}"),
+    }
+}
+
+pub fn fmt_program(p: &[Move]) -> String {
+    p.iter().map(|m| m.name()).collect::<Vec<_>>().join(", ")
+}
+
+pub fn fmt_entries(es: &[Entry]) -> String {
+    let v: Vec<String> = es.iter().map(|e| fmt_entry(&Some(e.clone()))).collect();
+    format!("[{}]", v.join(" "))
+}
+
+///////////////////////////////////////////// Findings /////////////////////////////////////////////
+
+/// signature -> (occurrences, size metric of the kept witness, witness); the smallest witness wins,
+/// so the reported case is minimal within the enumerated space whatever the thread schedule.
+#[derive(Default)]
+pub struct Findings {
+    map: Mutex<BTreeMap<String, (u64, u64, Violation)>>,
+}
+
+impl Findings {
+    pub fn new() -> Self {
+        Findings::default()
+    }
+
+    pub fn seen(&self, sig: &str) -> bool {
+        self.map.lock().unwrap().contains_key(sig)
+    }
+
+    /// `metric`: smaller = simpler witness.
+    pub fn record(&self, metric: u64, v: Violation) {
+        let mut m = self.map.lock().unwrap();
+        match m.get_mut(&v.signature) {
+            Some(slot) => {
+                slot.0 += 1;
+                if metric < slot.1 {
+                    slot.1 = metric;
+                    slot.2 = v;
+                }
+            }
+            None => {
+                m.insert(v.signature.clone(), (1, metric, v));
+            }
+        }
+    }
+
+    /// Would this witness replace the kept one?  (lets callers skip building big JSON cases)
+    pub fn wants(&self, sig: &str, metric: u64) -> bool {
+        match self.map.lock().unwrap().get(sig) {
+            Some(slot) => metric < slot.1,
+            None => true,
+        }
+    }
+
+    pub fn bump(&self, sig: &str) {
+        if let Some(slot) = self.map.lock().unwrap().get_mut(sig) {
+            slot.0 += 1;
+        }
+    }
+
+    pub fn into_report(self, rep: &mut vcore::Report) {
+        let m = self.map.into_inner().unwrap();
+        for (sig, (n, _, v)) in m {
+            rep.violation_sigs.insert(sig, n);
+            rep.violations.push(v);
+        }
+    }
+}
+
+#[cfg(test)]
+mod tests {
+    use super::*;
+
+    #[test]
+    fn shapes() {
+        assert_eq!(
+            shape(&[Move::Seek(b"a".to_vec()), Move::Prev, Move::Prev, Move::Next]),
+            "seek,prev+,next"
+        );
+    }
+}
